@@ -626,10 +626,12 @@ pub fn check_pipe_macro() -> Option<(String, String)> {
                 },
             }
         };
-        let a = Simple::Skip(1);
-        let b = Simple::MapAdd;
-        let c = Simple::FilterOdd;
-        let d = Simple::Take(2);
+        // four stages of which no two commute (on some input), so that any wrong nesting order of
+        // the macro expansion changes what f sees
+        let a = Simple::FilterGt1;
+        let b = Simple::MapMul;
+        let c = Simple::MapAdd;
+        let d = Simple::Scan;
         let cases: Vec<(Outcome, Outcome, &str)> = vec![
             (
                 run(&|| pipe!(main_source(&input), fe())),
